@@ -41,7 +41,12 @@
  *     byte 16*<startblock>+j of the keystream.  Flag t: a second stream
  *     object, moved to the same block, encrypts the output again in one call.
  */
+#define _GNU_SOURCE	/* memfd_create */
 #include "vh.h"
+
+#include <sys/mman.h>
+#include <errno.h>
+#include <unistd.h>
 
 #include <openssl/evp.h>
 
@@ -485,6 +490,34 @@ seg_gen(struct crypto_aesctr ** streamp, const char * flags, int first,
 	vh_free(rb);
 }
 
+/* One 2 MiB memory file mapped HUGE_NCHUNK times back to back (4 GiB + 2 MiB). */
+#define HUGE_CHUNK ((size_t)2 << 20)
+#define HUGE_NCHUNK ((size_t)2049)
+static uint8_t *
+huge_region(int fill)
+{
+	uint8_t * base;
+	size_t i;
+	int fd;
+
+	if ((fd = memfd_create("c02-huge", 0)) == -1)
+		vh_die("memfd_create: %s", strerror(errno));
+	if (ftruncate(fd, (off_t)HUGE_CHUNK))
+		vh_die("ftruncate: %s", strerror(errno));
+	if ((base = mmap(NULL, HUGE_NCHUNK * HUGE_CHUNK, PROT_NONE,
+	    MAP_PRIVATE | MAP_ANONYMOUS | MAP_NORESERVE, -1, 0)) == MAP_FAILED)
+		vh_die("mmap reserve: %s", strerror(errno));
+	for (i = 0; i < HUGE_NCHUNK; i++)
+		if (mmap(base + i * HUGE_CHUNK, HUGE_CHUNK, PROT_READ | PROT_WRITE,
+		    MAP_SHARED | MAP_FIXED, fd, 0) == MAP_FAILED)
+			vh_die("mmap window: %s", strerror(errno));
+	close(fd);
+	if (fill)
+		for (i = 0; i < HUGE_CHUNK; i++)
+			base[i] = (uint8_t)(i * 0x9E3779B1u >> 24);
+	return (base);
+}
+
 int
 main(void)
 {
@@ -646,6 +679,58 @@ main(void)
 			fputc('\n', stdout);
 			vh_free(d);
 			crypto_aesctr_free(stream);
+			key_done(&k);
+		} else if (op[0] == 'H') {
+			/*
+			 * H <key> <nonce> <extra>: ONE crypto_aesctr_stream call of
+			 * 2^32 + extra bytes (>= 2^28 blocks: counts of blocks and
+			 * bytes pass 32 bits inside a single call), then three short
+			 * calls on the same stream.  The 4 GiB buffers are address
+			 * ranges in which one 2 MiB memory file is mapped over and
+			 * over: the input is periodic and of the output only the
+			 * bytes written last survive; those and the short calls are
+			 * compared with the reference.  Answer: "R huge ok" or what
+			 * differs.
+			 */
+			struct keyinfo k;
+			struct crypto_aesctr * stream;
+			uint64_t nonce = vh_tok_u(&L, 2);
+			size_t extra = (size_t)vh_tok_u(&L, 3);
+			size_t biglen = ((size_t)1 << 32) + extra, tail, j;
+			uint8_t * in, * out, * want;
+			uint8_t sin[100], sout[100], swant[100];
+			const char * bad = NULL;
+
+			if (L.ntok != 4 || extra >= HUGE_CHUNK)
+				vh_die("bad H line");
+			key_setup(&k, vh_tok(&L, 1));
+			if (!k.present)
+				vh_die("H needs a key");
+			in = huge_region(1);
+			out = huge_region(0);
+			for (j = 0; j < sizeof(sin); j++)
+				sin[j] = (uint8_t)(j * 3 + 7);
+			if ((stream = crypto_aesctr_init(k.lib, nonce)) == NULL)
+				vh_die("crypto_aesctr_init failed");
+			crypto_aesctr_stream(stream, in, out, biglen);
+			crypto_aesctr_stream(stream, sin, sout, 7);
+			crypto_aesctr_stream(stream, sin + 7, sout + 7, 16);
+			crypto_aesctr_stream(stream, sin + 23, sout + 23, 77);
+			crypto_aesctr_free(stream);
+			/* the last megabyte of the big call */
+			tail = (size_t)1 << 20;
+			want = vh_xmalloc(tail);
+			refaes_ctr(k.rk, k.nr, nonce, biglen - tail, in + (biglen - tail),
+			    want, tail);
+			if (memcmp(out + (biglen - tail), want, tail))
+				bad = "the last megabyte of the 4 GiB call differs from the model";
+			refaes_ctr(k.rk, k.nr, nonce, biglen, sin, swant, 100);
+			if (bad == NULL && memcmp(sout, swant, 100))
+				bad = "the calls after the 4 GiB call do not continue the stream at byte 2^32+extra";
+			printf("R huge %s\n", bad ? bad : "ok");
+			vh_free(want);
+			munmap(in, HUGE_NCHUNK * HUGE_CHUNK);
+			munmap(out, HUGE_NCHUNK * HUGE_CHUNK);
 			key_done(&k);
 		} else
 			vh_die("bad op %s", op);
